@@ -586,6 +586,40 @@ func genC05(c *Ctx) {
 		}
 	}
 
+	// 2b. F66: one member whose name only LOOKS like a kept name (case variant, U+017F, U+212A),
+	// or a second "content", added to a well-formed event, first or last; the specification's
+	// redaction drops / ignores it
+	{
+		look := [][2]string{{"Content", `{"membership":"ban","users":{"@mallory:a":100},"creator":"@m:a","join_rule":"public"}`},
+			{"CONTENT", `{"membership":"ban"}`}, {"content", `{"membership":"ban","users":{"@mallory:a":100}}`},
+			{"State_key", `""`}, {"state_Key", `"case"`}, {"state_\u212aey", `"kelvin"`}, {"ſtate_key", `"long-s"`}, {"ſender", `"@mallory:evil"`}, {"Sender", `"@mallory:evil"`},
+			{"origin_ſerver_ts", `1`}, {"Membership", `"join"`}, {"Prev_state", `[]`}, {"Event_id", `"$x"`}, {"hasheſ", `{"sha256":"AA"}`},
+			{"ſignatures", `{}`}, {"Type", `"m.room.create"`}, {"Depth", `7`}, {"Room_id", `"!other:a"`}, {"auth_eventſ", `[]`},
+			{"prev_eventſ", `[]`}, {"Origin", `"o"`}}
+		types := []string{"m.room.member", "m.room.power_levels", "m.room.message"}
+		if c.Thorough() {
+			types = append(append([]string{}, c05Types...), "m.room.message")
+		}
+		gp := c05Gen{c, true}
+		for _, ver := range c05Versions {
+			for _, typ := range types {
+				for _, kv := range look {
+					base := strings.TrimSpace(gp.wfEvent(typ, gp.shuffle(append(gp.subset(c05ContentKeep, 0.3), "zzz")), []string{"sender", "state_key", "origin_server_ts", "depth"}, nil))
+					if !strings.HasPrefix(base, "{") || !strings.HasSuffix(base, "}") {
+						continue
+					}
+					kb, _ := json.Marshal(kv[0])
+					member := string(kb) + ":" + kv[1]
+					for _, txt := range []string{"{" + member + "," + base[1:], base[:len(base)-1] + "," + member + "}"} {
+						c.Run("C05.redact_raw", Args(ver, txt), "", "C05.prop.spec", "look-alike member "+kv[0]+" type="+typ)
+						c.Run("C05.redact_raw", Args(ver, txt), "", "C05.prop.model_raw", "look-alike member "+kv[0]+" type="+typ)
+						c.Count("look-alike/" + kv[0])
+					}
+				}
+			}
+		}
+	}
+
 	// 3. shapes outside the specification's domain (model comparison only)
 	odd := []string{
 		`{}`, `{"type":null}`, `{"content":null}`, `{"type":null,"content":null}`,
